@@ -29,7 +29,9 @@ Fixpoint cu_dedup (l : list N) : list N :=
   match l with [] => [] | x :: t => if cu_mem x t then cu_dedup t else x :: cu_dedup t end.
 
 (* ---- relational state ---- *)
-Record cu_mb := mkMb { mb_id : N; mb_rid : N; mb_name : N; mb_uidv : N; mb_sub : bool }.
+(* mb_flags / mb_perm / mb_attrs: the FLAGS, PERMANENTFLAGS and attribute sets of the mailbox (three separate tables) *)
+Record cu_mb := mkMb { mb_id : N; mb_rid : N; mb_name : N; mb_uidv : N; mb_sub : bool;
+                       mb_flags : list N; mb_perm : list N; mb_attrs : list N }.
 (* ms_rid = None: the random "DELETED-<uuid>" remote id no connector id ever equals *)
 Record cu_ms := mkMs { ms_id : N; ms_rid : option N; ms_lit : N; ms_flags : list N; ms_del : bool }.
 (* one row of mailbox_message_<me_mb> (and of message_to_mailbox) *)
@@ -63,7 +65,7 @@ Definition cu_visible (u : cu_su) : bool := match u with SuMailboxRid _ _ | SuMe
 Record cu_item := mkItem { it_rid : N; it_lit : N; it_flags : list N; it_mboxes : list N }.
 
 Inductive cu_update :=
-| UMailboxCreated (rid name : N)
+| UMailboxCreated (rid name : N) (flags perm attrs : list N)
 | UMailboxDeleted (rid : N)
 | UMailboxUpdated (rid name : N)
 | UMailboxIDChanged (iid rid : N)
@@ -305,7 +307,7 @@ Fixpoint cu_bump (l : list cu_mb) (vs : list N) : option (list cu_mb) :=
               | [] => None
               | v :: vs' => match cu_bump t vs' with
                             | None => None
-                            | Some r => Some (mkMb (mb_id m) (mb_rid m) (mb_name m) v (mb_sub m) :: r)
+                            | Some r => Some (mkMb (mb_id m) (mb_rid m) (mb_name m) v (mb_sub m) (mb_flags m) (mb_perm m) (mb_attrs m) :: r)
                             end
               end
   end.
@@ -315,7 +317,7 @@ Definition cu_tx (s : cu_state) (e : cu_env) (u : cu_update) : option (cu_state 
   match u with
   | UNoop => Some (s, [])
 
-  | UMailboxCreated rid name0 =>
+  | UMailboxCreated rid name0 fl pf att =>
       let name := cu_canon_name name0 in       (* user.joinMailboxName: INBOX is stored with its canonical spelling *)
       if rid =? cu_recovery_rid then None
       else match cu_find_mb_rid s rid with
@@ -326,7 +328,7 @@ Definition cu_tx (s : cu_state) (e : cu_env) (u : cu_update) : option (cu_state 
                | v :: _ =>
                    match cu_find_mb_name s name with
                    | Some _ => None                                  (* UNIQUE(name) *)
-                   | None => Some (mkSt (st_mb s ++ [mkMb (st_nextmb s) rid name v true]) (st_ms s) (st_me s)
+                   | None => Some (mkSt (st_mb s ++ [mkMb (st_nextmb s) rid name v true fl pf att]) (st_ms s) (st_me s)
                                         (st_seq s) (st_nextmb s + 1) (st_dsub s), [])
                    end
                end
@@ -353,7 +355,7 @@ Definition cu_tx (s : cu_state) (e : cu_env) (u : cu_update) : option (cu_state 
                if mb_name m =? name then Some (s, [])
                else if existsb (fun x => (mb_name x =? name) && negb (mb_rid x =? rid)) (st_mb s) then None
                else Some (cu_with_mb s (map (fun x => if mb_rid x =? rid
-                                                      then mkMb (mb_id x) (mb_rid x) name (mb_uidv x) (mb_sub x) else x)
+                                                      then mkMb (mb_id x) (mb_rid x) name (mb_uidv x) (mb_sub x) (mb_flags x) (mb_perm x) (mb_attrs x) else x)
                                             (st_mb s)), [])
            end
 
@@ -364,7 +366,7 @@ Definition cu_tx (s : cu_state) (e : cu_env) (u : cu_update) : option (cu_state 
           if mb_rid m =? cu_recovery_rid then None
           else if existsb (fun x => (mb_rid x =? rid) && negb (mb_id x =? iid)) (st_mb s) then None
           else Some (cu_with_mb s (map (fun x => if mb_id x =? iid
-                                                 then mkMb (mb_id x) rid (mb_name x) (mb_uidv x) (mb_sub x) else x)
+                                                 then mkMb (mb_id x) rid (mb_name x) (mb_uidv x) (mb_sub x) (mb_flags x) (mb_perm x) (mb_attrs x) else x)
                                        (st_mb s)), [SuMailboxRid iid rid])
       end
 
